@@ -671,7 +671,7 @@ theorem genNode_bal (st : St ρ) n : BalRes (Ctl.genNode ev (fuel + 1) st n).2 :
   cases n with
   | elem e kids tail =>
     unfold Ctl.genNode
-    apply okP_seq _ _ (ih.genElem st e kids)
+    apply okP_seq _ _ (ih.genElem st (leafDefaults st e kids) kids)
     intro r hr
     exact okP_ok (balanced_withTail tail _ hr)
   | comment c tail =>
